@@ -37,9 +37,20 @@ def run(tier, seed):
     if not thorough:
         interesting = [b for b in four if any(o[0] in ("kill", "link", "monitor") for o in b["hist"])]
         four = rng.sample(interesting, min(len(interesting), 140)) + rng.sample(four, 40)
+    # links / monitors only, both processes alive from the start, every sequence of four operations: the ones in which a
+    # relation was taken back (unlink / demonitor) and a termination still has somebody to notify are always executed
+    links = behaviours("gen/Gen_LocalProc_links.cfg", "gen_links")
+
+    def removal_then_exit(b):
+        ks = [o[0] for o in b["hist"]]
+        return any(k in ("demonitor", "unlink") for k in ks) and b["hist"][-1][0] == "kill" and b["hist"][-1][3] == "ok" and any(len(n) > 0 for n in b["notices"].values())
+    pri = [b for b in links if removal_then_exit(b)]
+    rest = [b for b in links if not removal_then_exit(b)]
+    links = pri + (rest if thorough else rng.sample(rest, min(len(rest), 40)))
+    v.cov["link_monitor_sequences"] = {"prioritised": len(pri), "executed": len(links)}
     lib.tlc_expect_violation("mc/MC_LocalProc.tla", "mc/MC_LocalProc_latelink.cfg", PID, "mc_latelink", "LinkedNotifiedAll")
     v.cov["mc_configs"].append({"cfg": "MC_LocalProc_latelink", "result": "counterexample to LinkedNotifiedAll: a link that lands after the exit snapshot (adversarial schedule replayed below)"})
-    scen = list({json.dumps(b["hist"]): b for b in four + eight}.values())
+    scen = list({json.dumps(b["hist"]): b for b in four + eight + links}.values())
     scen.append({"hist": [["late_link", "", "", ""]], "adversarial": "late_link"})
     for i, s in enumerate(scen):
         s["id"] = i
@@ -87,7 +98,7 @@ def run(tier, seed):
                 v.violation(what, {**case, "process": p, "expected": s["notices"][p], "got": o["notices"].get(p, [])})
             if p in o["alive"] and o["alive"][p] != s["alive"][p]:
                 v.violation("a terminated process still resolves (or a live one does not)", {**case, "process": p, "model_alive": s["alive"][p], "resolves": o["alive"][p]})
-        for n, pv in s["byName"].items():
+        for n, pv in (s["byName"].items() if isinstance(s["byName"], dict) else []):
             if o["names"].get(n) != pv:
                 v.violation("a registered name resolves to the wrong process or survives its process", {**case, "name": n, "model": pv, "whereis": o["names"].get(n)})
         for opx, res in zip(s["hist"], o["results"]):
